@@ -273,4 +273,102 @@ theorem rank_inj {p : Plane} (hn : p.seq.Nodup) {a b : PObj} (ha : a ∈ p.seq) 
   rw [← ha', ← hb']
   simp only [h']
 
+/-! ### bounded work: the overflow list -/
+
+theorem drange_bounds (v0 v1 : Rat) (d : Int) : drange v0 v1 d = pyRange (rStart v0 d) (rStop v1 d) := rfl
+
+theorem length_pyRange (lo hi : Int) : (pyRange lo hi).length = (hi - lo).toNat := by
+  simp [pyRange]
+
+theorem length_flatMap_const {α β : Type} (l : List α) (f : α → List β) (n : Nat) (h : ∀ x ∈ l, (f x).length = n) :
+    (l.flatMap f).length = l.length * n := by
+  induction l with
+  | nil => simp
+  | cons x r ih =>
+    simp only [List.flatMap_cons, List.length_append, List.length_cons, h x List.mem_cons_self,
+      ih (fun y hy => h y (List.mem_cons_of_mem _ hy))]
+    rw [Nat.add_mul]; omega
+
+/-- `_cells` counts the cells without enumerating them. -/
+theorem length_getrange (p : Plane) (b : Rect) : (getrange p b).length = cellCount p b := by
+  obtain ⟨x0, y0, x1, y1⟩ := b
+  simp only [getrange, cellCount, drange_bounds]
+  rw [length_flatMap_const _ _ ((rStop (max (min p.x1 x1) p.x0) p.gridsize - rStart (min (max p.x0 x0) p.x1) p.gridsize).toNat)
+    (by intro gy _; simp [length_pyRange])]
+  rw [length_pyRange, Nat.mul_comm]
+
+theorem cells?_some {p : Plane} {b : Rect} {ks : List Key} (h : cells? p b = some ks) :
+    ks = getrange p b ∧ ks.length ≤ PLANE_MAXCELLS := by
+  unfold cells? at h
+  split at h
+  · simp at h
+  · rename_i hle
+    simp only [Option.some.injEq] at h
+    subst h
+    exact ⟨rfl, by rw [length_getrange]; omega⟩
+
+/-- **Bounded work.**  No operation (`add`, `remove`, `find` on a box `b`) enumerates more than `MAXCELLS`
+grid cells, whatever the coordinates of the box and of the plane are. -/
+theorem cellsTouched_le (p : Plane) (b : Rect) : cellsTouched p b ≤ PLANE_MAXCELLS := by
+  unfold cellsTouched
+  cases h : cells? p b with
+  | none => simp
+  | some ks => exact (cells?_some h).2
+
+/-! ### fields of `add` / `remove` -/
+
+theorem add_seq (p : Plane) (o : PObj) : (add p o).seq = p.seq ++ [o] := rfl
+theorem add_objs (p : Plane) (o : PObj) : (add p o).objs = if o.id ∈ p.objs then p.objs else p.objs ++ [o.id] := rfl
+
+theorem add_bounds (p : Plane) (o : PObj) :
+    (add p o).gridsize = p.gridsize ∧ (add p o).x0 = p.x0 ∧ (add p o).y0 = p.y0 ∧ (add p o).x1 = p.x1 ∧ (add p o).y1 = p.y1 := by
+  unfold add; cases cells? p (bboxOf o) <;> simp
+
+theorem add_big (p : Plane) (o : PObj) (h : cells? p (bboxOf o) = none) :
+    (add p o).grid = p.grid ∧ (add p o).big = p.big ++ [o] := by
+  unfold add; simp [h]
+
+theorem add_small (p : Plane) (o : PObj) (ks : List Key) (h : cells? p (bboxOf o) = some ks) :
+    (add p o).grid = ks.foldl (fun g k => g ++ [(k, o)]) p.grid ∧ (add p o).big = p.big := by
+  unfold add; simp [h]
+
+theorem remove_seq (p : Plane) (o : PObj) : (remove p o).1.seq = p.seq := by
+  unfold remove; cases cells? p (bboxOf o) <;> simp only <;> split <;> rfl
+
+theorem remove_objs (p : Plane) (o : PObj) : (remove p o).1.objs = p.objs.erase o.id := by
+  unfold remove
+  cases cells? p (bboxOf o) <;> simp only <;> split
+  · rfl
+  · rename_i h; exact (List.erase_of_not_mem h).symm
+  · rfl
+  · rename_i h; exact (List.erase_of_not_mem h).symm
+
+theorem remove_bounds (p : Plane) (o : PObj) :
+    (remove p o).1.gridsize = p.gridsize ∧ (remove p o).1.x0 = p.x0 ∧ (remove p o).1.y0 = p.y0 ∧
+      (remove p o).1.x1 = p.x1 ∧ (remove p o).1.y1 = p.y1 := by
+  unfold remove; cases cells? p (bboxOf o) <;> simp only <;> split <;> simp
+
+theorem remove_big (p : Plane) (o : PObj) (h : cells? p (bboxOf o) = none) :
+    (remove p o).1.grid = p.grid ∧ (remove p o).1.big = p.big.erase o := by
+  unfold remove; simp only [h]; split <;> simp
+
+theorem remove_small (p : Plane) (o : PObj) (ks : List Key) (h : cells? p (bboxOf o) = some ks) :
+    (remove p o).1.grid = ks.foldl (fun g k => g.erase (k, o)) p.grid ∧ (remove p o).1.big = p.big := by
+  unfold remove; simp only [h]; split <;> simp
+
+theorem getrange_congr {p p' : Plane} (h : p'.gridsize = p.gridsize ∧ p'.x0 = p.x0 ∧ p'.y0 = p.y0 ∧ p'.x1 = p.x1 ∧ p'.y1 = p.y1)
+    (b : Rect) : getrange p' b = getrange p b := by
+  obtain ⟨h1, h2, h3, h4, h5⟩ := h
+  unfold getrange; rw [h1, h2, h3, h4, h5]
+
+theorem cells?_congr {p p' : Plane} (h : p'.gridsize = p.gridsize ∧ p'.x0 = p.x0 ∧ p'.y0 = p.y0 ∧ p'.x1 = p.x1 ∧ p'.y1 = p.y1)
+    (b : Rect) : cells? p' b = cells? p b := by
+  have hg := getrange_congr h b
+  obtain ⟨h1, h2, h3, h4, h5⟩ := h
+  unfold cells? cellCount; rw [hg, h1, h2, h3, h4, h5]
+
+
+theorem remove_ok (p : Plane) (o : PObj) (h : o.id ∈ p.objs) : (remove p o).2 = true := by
+  unfold remove; cases cells? p (bboxOf o) <;> simp [h]
+
 end PdfVerif.Plane
